@@ -222,6 +222,8 @@ int flush_pubsub_msgs(void *data, const char *key, void *value) {
         M_DEBUG("Destroying enqueued pubsub message for module '%s'.\n", mod->name);
         m_mem_unref(mm);
     }
+    /* The callback may deregister the module, dropping the last reference on it */
+    m_mem_ref(mod);
     call_pubsub_cb(mod, flushed);
     /* A paused module loses its mailbox here: the pill that was in it still takes effect */
     if (poisoned && m_mod_is(mod, M_MOD_RUNNING | M_MOD_PAUSED)) {
@@ -237,6 +239,7 @@ int flush_pubsub_msgs(void *data, const char *key, void *value) {
     if (!stopping_mod) {
         fs_ctx_stopped(mod);
     }
+    m_mem_unref(mod);
     return 0;
 }
 
